@@ -3,6 +3,7 @@
 mod agg_engine;
 mod auth_engine;
 mod client_engine;
+mod cluster_engine;
 mod codec_engine;
 mod core_engine;
 mod election_engine;
@@ -24,6 +25,7 @@ fn main() {
         "persist" => persist_engine::main(&args[2], &args[3]),
         "agg" => agg_engine::main(&args[2], &args[3]),
         "session" => session_engine::main(&args[2], &args[3]),
+        "cluster" => cluster_engine::main(&args[2], &args[3]),
         "client" => client_engine::main(&args[2], &args[3]),
         "election" => election_engine::main(&args[2], &args[3]),
         other => {
